@@ -9,9 +9,12 @@ META = {
     "text": "spec/Fold.tla models opt.go's constant folder as an AST->AST operator; TLC checks the lemmas Eval(Fold(e))=Eval(e), "
             "'rejects only a literal-zero divisor' and 'folds to one literal' for every constant expression of depth<=2 over a literal set "
             "with zero/negative/int/float values, and every enumerated expression is folded by the REAL opt.Optimise and compiled+run with "
-            "the optimiser on and off; in addition generated programs (MtailGen, literal-rich profile) are run in both modes against the "
-            "reference semantics.",
-    "note": "Exponents are small non-negative integer literals; float values are dyadic rationals; 64-bit overflow is outside the model.",
+            "the optimiser on and off; an `open` family (one non-constant leaf) compares the folded TREE, an `edge` family (64-bit boundary "
+            "literals) and every other case are also judged by the property itself: where both compiles accept they agree on value, "
+            "type and runtime error; generated programs (MtailGen, literal-rich profile) are run in both modes against the reference "
+            "semantics; every source is also compiled on a long-lived compiler that has refused other sources.",
+    "note": "Exponents are small integer literals; float values are dyadic rationals; values beyond 1e9 are outside the model's arithmetic "
+            "(there the differential comparison optimised = unoptimised decides).",
     "technique": "TLA+ model of the folder with TLC-exhaustive lemma + every case replayed into real opt.Optimise / compiler / VM (direction A)",
     "design_ref": "DESIGN.md 5/C02",
 }
